@@ -43,6 +43,8 @@ def ob_step(a: int, b: int, c: int, hold: int) -> bool:
         hold = None
     w = S.in_state(state, cfgd, hold=hold, closing=P.get('closing', False), old_closed=P.get('old_closed', False),
                    stale_hold=hold if P.get('stale') else None)
+    if state in (S.OPENCONFIRM, S.ESTABLISHED) and hold:
+        w.reactor.now = 1          # a second has passed since the timers were armed: "restarted" differs from "untouched"
     mark = w.mark()
     SC.inject(w, ev, a, b, c)
     obs = SC.observe(w, mark)
